@@ -66,6 +66,11 @@ def main(tier, seed, replay=None):
         M, P = COMBOS[j % 4]
         cases.append(statsrun.gen_stats_case(rng, M, P, M + P + rng.randint(3, 9), scalar="f64", weights=["tiny", "huge"][j % 2], noise=0.1,
                                              quant=(8 if j % 3 else None), probs=[0.683]))
+    # data in tiny units: covariance entries around 1e-20 .. 1e-38
+    for j in range(6 if tier == "quick" else 60):
+        M, P = COMBOS[j % 3]
+        cases.append(statsrun.gen_stats_case(rng, M, P, M + P + rng.randint(3, 9), scalar="f64", weights=["none", "pos", "neg"][j % 3], noise=0.05,
+                                             quant=(8 if j % 2 else None), probs=[0.683], yscale=(2.0 ** -30 if j % 2 else 2.0 ** -60)))
     # a parameter shared by two basis functions (its derivative matrix has two non-zero columns)
     for j in range(6 if tier == "quick" else 80):
         M = 2 + j % 3
@@ -80,10 +85,10 @@ def main(tier, seed, replay=None):
         cases.append(statsrun.gen_stats_case(rng, M, P, M + P + rng.randint(3, 10), scalar=sc, weights=["none", "pos"][j % 2],
                                              noise=(1e-9 if sc == "f64" else 1e-5) * rng.choice([1.0, 0.1, 10.0]), qbits=(44 if sc == "f64" else 30),
                                              quant=None, probs=[0.683]))
-    results, idx, hist, nerr = run_stats_values(run, "C13", cases, binp, (24, 25, 26, 27, 28, 31), "covariance")
+    results, idx, hist, nerr = run_stats_values(run, "C13", cases, binp, (20, 21, 22, 23, 24, 25, 26, 27, 28, 31), "covariance")
     # the same problems in the release profile (no debug assertions, no overflow checks): the statistics must not depend on it
     rel_cases = [c for k, c in enumerate(cases) if tier != "quick" or k % 2 == 0]
-    _, ridx, rhist, _ = run_stats_values(run, "C13", rel_cases, build_harness("release"), (24, 25, 26, 27, 28, 31), "covariance (release profile)", tag="rel")
+    _, ridx, rhist, _ = run_stats_values(run, "C13", rel_cases, build_harness("release"), (20, 21, 22, 23, 24, 25, 26, 27, 28, 31), "covariance (release profile)", tag="rel")
     # ordering: linear coefficients first (in basis order) then nonlinear parameters (declaration order) is what code 24 checks:
     # H's columns are [Phi | D_1 c | ... | D_P c]; slices are checked by code 27
     run.coverage.update({
